@@ -119,6 +119,13 @@ Theorem C03_oid_unchecked_refuted :
 Proof. exists (w_oid_node_unchecked (current true false)). vm_compute. eexists _, _. repeat split. Qed.
 Print Assumptions C03_oid_unchecked_refuted.
 
+(* a fully specified clause with a temporal predicate is an existence test that ignores the global BEFORE / AFTER /
+   BETWEEN: a row although the triple lies outside the bound (found by the driver-shape x global-bound generator group) *)
+Theorem C03_spec3_global_bounds_refuted :
+  exists q outs row, q_cfg q = current true false /\ run_model q = Ok (outs, [row]) /\ run_spec q = [].
+Proof. exists (w_spec3_global_bounds (current true false)). vm_compute. eexists _, _. repeat split. Qed.
+Print Assumptions C03_spec3_global_bounds_refuted.
+
 (* ---- the defects that were repaired: false of the ORIGINAL tree's model (witnesses replayed on the real planner before the
    repair, see evidence history), true of the current one on the same witness *)
 Theorem C03_join_kind_original_refuted :
